@@ -207,6 +207,11 @@ func (g *Gateway) handleLegacyProtocol(w http.ResponseWriter, r *http.Request, t
 		}
 		defer in.Close()
 
+		if t.transportOut == nil {
+			log.Printf("RDG_IN_DATA for session %s without an established RDG_OUT_DATA channel, closing", t.RDGId)
+			return
+		}
+
 		if t.transportIn == nil {
 			t.Id = uuid.New().String()
 			t.transportIn = in
